@@ -172,3 +172,84 @@ pub fn c06_family(rep: &mut Report) {
     rep.cov("hash_orders", json!({"attempts": total_attempts, "per_scenario": coverage}));
     rep.cov_add("evaluations", total_attempts);
 }
+
+
+/// Sets and maps that live *inside* a backend (Python's TypeVar / import sets, Go's import set, TypeScript's
+/// translation table …) cannot be handed a chosen iteration order from outside. What the harness owns is the hash
+/// seed: every attempt runs on a fresh thread (fresh SipHash keys) with a fresh backend instance, on programs chosen to
+/// put several entries into each such collection. All outputs of one (program, language) must be byte-identical.
+/// Coverage is therefore *observed* (number of seeds), not forced; with n entries in a set a seed-dependent order
+/// goes unnoticed with probability (1/n!)^(attempts-1).
+pub fn c06_internal_sets_family(rep: &mut Report) {
+    use crate::pipeline::{self, Cfg, Outcome, SrcFile, ALL_LANGS};
+    let programs: [(&str, &str, bool); 3] = [
+        (
+            "several-generic-parameter-names",
+            "#[typeshare]\npub struct Pair<K, V> { pub k: K, pub v: V }\n#[typeshare]\npub struct Wrap<T> { pub t: Vec<T> }\n#[typeshare]\npub struct Tri<A, B, C> { pub a: A, pub b: Option<B>, pub c: Vec<C> }\n#[typeshare]\n#[serde(tag = \"t\", content = \"c\")]\npub enum Res<T, E> { Good(T), Bad(E), Both { t: T, e: E } }\n",
+            false,
+        ),
+        (
+            "every-helper-at-once",
+            "#[typeshare]\npub struct Helpers { pub u: (), pub a: u8, pub b: u16, pub c: u32, pub d: U53, pub when: DateTime, pub raw: Vec<u8>, pub link: Url, pub o: Option<String>, pub m: HashMap<String, Vec<u32>>, #[serde(default)] pub late: DateTime }\n#[typeshare]\n#[serde(tag = \"t\", content = \"c\")]\npub enum E { A(DateTime), B { raw: Vec<u8>, n: Option<()> }, C }\n#[typeshare]\npub type Stamp = DateTime;\n",
+            true,
+        ),
+        (
+            "many-renamed-references",
+            "#[typeshare]\n#[serde(rename = \"AlphaR\")]\npub struct Alpha { pub b: Beta, pub g: Vec<Gamma> }\n#[typeshare]\n#[serde(rename = \"BetaR\")]\npub struct Beta { pub g: Option<Gamma> }\n#[typeshare]\n#[serde(rename = \"GammaR\")]\npub struct Gamma { pub x: u32 }\n#[typeshare]\n#[serde(rename = \"DeltaR\")]\npub type Delta = HashMap<String, Alpha>;\n",
+            false,
+        ),
+    ];
+    let attempts = if rep.thorough() { 96 } else { 32 };
+    let mut rows = Vec::new();
+    let mut total = 0u64;
+    for (name, src, mapped) in programs {
+        for &lang in &ALL_LANGS {
+            let mut cfg = Cfg::plain();
+            if mapped {
+                let (date, bytes, url) = match lang {
+                    Lang::TypeScript => ("Date", Some("Uint8Array"), "string"),
+                    Lang::Python => ("datetime", Some("bytes"), "AnyUrl"),
+                    Lang::Go => ("time.Time", Some("[]byte"), "string"),
+                    _ => ("String", None, "String"),
+                };
+                cfg.type_mappings.push(("DateTime".into(), date.into()));
+                cfg.type_mappings.push(("Url".into(), url.into()));
+                if let Some(b) = bytes {
+                    cfg.type_mappings.push(("Vec<u8>".into(), b.into()));
+                }
+            }
+            let mut outs: BTreeMap<String, usize> = BTreeMap::new();
+            let mut class = String::new();
+            for _ in 0..attempts {
+                let o = std::thread::scope(|s| s.spawn(|| pipeline::run(&[SrcFile::single(src)], lang, &cfg)).join());
+                total += 1;
+                match o {
+                    Ok(Outcome::Ok(m)) => {
+                        *outs.entry(m.values().next().cloned().unwrap_or_default()).or_insert(0) += 1;
+                        class = "ok".into();
+                    }
+                    Ok(other) => {
+                        // a clean refusal (e.g. constants in a backend without them) is the same refusal every time
+                        *outs.entry(format!("<{}>", other.kind())).or_insert(0) += 1;
+                        class = other.kind().into();
+                    }
+                    Err(_) => {
+                        *outs.entry("<thread panicked>".into()).or_insert(0) += 1;
+                    }
+                }
+            }
+            rows.push(json!({"program": name, "lang": lang.name(), "fresh_seeds": attempts, "outcome": class, "distinct_outputs": outs.len()}));
+            if outs.len() > 1 {
+                let mut it = outs.iter();
+                let a = it.next().unwrap();
+                let b = it.next().unwrap();
+                rep.vios.add(Violation {
+                    sig: format!("C06|nondeterministic-output|internal-collection-order|{name}|{}", lang.name()),
+                    detail: json!({"program": name, "lang": lang.name(), "source": src, "type_mappings": cfg.type_mappings, "distinct_outputs": outs.len(), "runs": attempts, "output_a": a.0, "times_a": a.1, "output_b": b.0, "times_b": b.1}),
+                });
+            }
+        }
+    }
+    rep.cov("internal_collection_orders", json!({"runs": total, "per_program_and_language": rows, "how": "fresh thread (fresh SipHash keys) + fresh backend instance per run; orders are observed, not forced"}));
+    rep.cov_add("evaluations", total);
+}
